@@ -1,6 +1,7 @@
 package main
 
 import (
+	"io/ioutil"
 	"bytes"
 	"fmt"
 	"io"
@@ -31,6 +32,7 @@ func runTLV(id string, toks []string) (res string) {
 				tag, _ := strconv.Atoi(t[1:])
 				tags[tag] = true
 				fmt.Fprintf(&reads, " q%d=%s/%d", i, hx(c.GetBytes(byte(tag))), c.GetByte(byte(tag)))
+				io.Copy(ioutil.Discard, c.BytesBuffer()) // ... and a serialisation in the middle of the history, read to its end
 				continue
 			}
 			p := strings.SplitN(t, ":", 2)
@@ -43,8 +45,14 @@ func runTLV(id string, toks []string) (res string) {
 				c.SetBytes(byte(tag), v)
 			}
 		}
-		ser := c.BytesBuffer().Bytes()
+		first := c.BytesBuffer()
+		ser := append([]byte(nil), first.Bytes()...)
 		out := "ser=" + hx(ser) + reads.String()
+		// a serialisation that was read to its end (written to a response) leaves the container as it was
+		io.Copy(ioutil.Discard, first)
+		if again := c.BytesBuffer().Bytes(); !bytes.Equal(again, ser) {
+			out += " reserialised=differs"
+		}
 		c2, err := util.NewTLV8ContainerFromReader(bytes.NewBuffer(ser))
 		if err != nil {
 			return out + " reparse=err"
